@@ -448,9 +448,8 @@ impl Real {
                 }
                 self.o(echo);
                 let Ok(file) = std::fs::File::open(&p) else {
-                    self.l("mobs@ ? 0 X");
-                    self.o("ambiguous");
-                    self.dead = true;
+                    self.l("mobs@ X");
+                    self.o("noopen");
                     return;
                 };
                 let armed = self.before_unclocked_call(mode);
@@ -467,6 +466,7 @@ impl Real {
                 self.l(format!("mobs@ {} {} {}", rl, lo, ans));
                 if rl == "?" {
                     self.o("ambiguous");
+                    self.t("ambiguous");
                     self.dead = true;
                     return;
                 }
@@ -495,6 +495,7 @@ impl Real {
                 self.l(format!("scan@ {} {} {}", rl, lo, tbl));
                 if rl == "?" {
                     self.o("ambiguous");
+                    self.t("ambiguous");
                     self.dead = true;
                     return;
                 }
@@ -513,6 +514,7 @@ impl Real {
                 let Ok(odt) = time::OffsetDateTime::from_unix_timestamp_nanos(now) else {
                     self.l("get@ ? -");
                     self.o("ambiguous");
+                    self.t("ambiguous");
                     self.dead = true;
                     return;
                 };
@@ -539,6 +541,7 @@ impl Real {
                 let Ok(odt) = time::OffsetDateTime::from_unix_timestamp_nanos(now) else {
                     self.l("sr@ ? 0");
                     self.o("ambiguous");
+                    self.t("ambiguous");
                     self.dead = true;
                     return;
                 };
@@ -705,7 +708,16 @@ impl Family for NfsFamily {
                     // one real wait past a refresh threshold per case at most (they cost seconds)
                     if long_sleeps == 0 && rng.chance(1, 3) {
                         long_sleeps += 1;
-                        out.push(format!("sleep {}", if rng.chance(1, 2) { 1150 } else { 2150 }));
+                        // past a refresh threshold for real, then the unclocked policy right away
+                        if rng.chance(1, 2) {
+                            out.push("sleep 1150".to_string());
+                            out.push(format!("scan {}", if rng.chance(1, 4) { "prime" } else { "wait" }));
+                        } else {
+                            let f = rng.range(1, nfiles);
+                            out.push("sleep 2150".to_string());
+                            out.push(format!("touch {}", f));
+                            out.push(format!("mobs {} {}", f, if rng.chance(1, 4) { "prime" } else { "wait" }));
+                        }
                     } else {
                         out.push(format!("obs {}", any(rng)));
                     }
